@@ -37,4 +37,12 @@ CHECKS["C14"] = {
             "outside the table and return 'unsupported'.",
     "note": TRUST + "Registry copy: spec/iana_tls_cipher_suites.json (scapy 2.7.0 table + RFC 6655/8442/8492), cross-checked against openssl -stdname on every run.",
 }
+CHECKS["C05"] = {
+    "technique": "symbolic execution of Session reassembly (handle_packet, get_tls_records, extract_*_buf, TlsRecord) with solver-chosen cut points, duplicate, displacement and a symbolic 32-bit initial sequence number",
+    "text": "For record streams within the bound with every content byte symbolic, z3 explores every set of cut points, every "
+            "placement of one exact duplicate, every displacement of one segment and every initial sequence number (including "
+            "streams crossing 2^32) and shows that the records handed to the record layer are exactly the records sent, per "
+            "direction and in order. One defect is recorded as a known finding and its paths are excluded.",
+    "note": TRUST + "Packets are duck-typed stubs; the record layer is replaced by a recorder. Bounds in the evidence file.",
+}
 NOT_APPLICABLE = {}
